@@ -31,6 +31,8 @@ pub mod c12;
 pub mod c13;
 #[path = "../../kani/src/c10.rs"]
 pub mod c10;
+#[path = "../../kani/src/c08.rs"]
+pub mod c08;
 #[path = "../../kani/src/c19.rs"]
 pub mod c19;
 
@@ -39,6 +41,7 @@ fn kani_bodies() -> Vec<(&'static str, fn())> {
   v.extend_from_slice(c12::BODIES);
   v.extend_from_slice(c13::BODIES);
   v.extend_from_slice(c10::BODIES);
+  v.extend_from_slice(c08::BODIES);
   v.extend_from_slice(c19::BODIES);
   v
 }
